@@ -456,14 +456,15 @@ class FFCXBackendAccess:
             if restriction == "-":
                 qp = self.symbols.quadrature_permutation[1]
 
-        if dof_index.dim == 1 and quadrature_index.dim == 1:
+        if tabledata.tensor_factors is None:
+            # Table without tensor factors (also inside a tensor-product
+            # quadrature loop): indexed by the flattened point index
             symbols += [L.Symbol(tabledata.name, dtype=L.DataType.REAL)]
             return self.symbols.element_tables[tabledata.name][qp][entity][iq_global_index][
                 ic_global_index
             ], symbols
         else:
             FE = []
-            assert tabledata.tensor_factors is not None
             for i in range(dof_index.dim):
                 factor = tabledata.tensor_factors[i]
                 iq_i = quadrature_index.local_index(i)
